@@ -131,7 +131,7 @@ def formatters_render_captured_state(ck):
     ck.ob("C03-O10", "(formatters)", not bad, "%d library functions reachable from the %d format() implementations, none samples a clock or the current thread" % (n, len(roots)), key="format|ambient-summary")
 
 
-def no_pointer_identity(ck, rid="C03-O9"):
+def no_pointer_identity(ck, rid="C03-O9", scope=None):
     """after the hand-off file / function / category live in per-message buffers: their addresses identify nothing (and are
     recycled by the allocator), so nothing in the library may use a `const char *` as a key"""
     import re
@@ -140,15 +140,18 @@ def no_pointer_identity(ck, rid="C03-O9"):
                       "another message's entry once the hand-off has re-homed the strings")
     KEYED = re.compile(r"\b(QHash|QMultiHash|QMap|QMultiMap|QSet|QCache|std::map|std::unordered_map|std::set|std::unordered_set)<(const )?char ?(const )?\*")
     hits = []
+    # scope: substrings of class / function names the property talks about (None = the whole library). A memo keyed on an address in,
+    # say, a formatter does not change the category filter's verdict, so C15 only looks at the filter's own classes
+    in_scope = (lambda name: True) if scope is None else (lambda name: any(s_ in (name or "") for s_ in scope))
     for q, rec in F.records.items():
-        if "QtLogger" not in q:
+        if "QtLogger" not in q or not in_scope(q):
             continue
         for f_ in rec.get("fields", []):
             if KEYED.search(f_.get("type") or ""):
                 hits.append(("%s (field %s::%s)" % ((rec.get("file") or "").split("/src/")[-1], q.split("::")[-1], f_["name"]), f_["type"]))
     n = 0
     for f in F.fns.values():
-        if f.body is None or not in_lib(f.file):
+        if f.body is None or not in_lib(f.file) or not in_scope(f.name):
             continue
         n += 1
         for d in f.find(lambda x: x.get("k") == "decl"):
